@@ -55,7 +55,12 @@ func TestC06(t *testing.T) {
 	// one P: goroutines of a settling step run in one deterministic order
 	runtime.GOMAXPROCS(1)
 	agg := mc.NewAgg(run)
-	links := []tch.LinkSpec{{Name: "L1", UUID: 1, Remote: "A"}, {Name: "L2", UUID: 1, Remote: "A"}, {Name: "L3", UUID: 2, Remote: "A"}, {Name: "L4", UUID: 3, Remote: "B"}}
+	// L1/L2: same UUID, same peer, distinct objects; L3: second link to A; L4: link to B;
+	// L5: same UUID as L1/L2 but another peer; L6 (thorough): same UUID as L4.
+	links := []tch.LinkSpec{{Name: "L1", UUID: 1, Remote: "A"}, {Name: "L2", UUID: 1, Remote: "A"}, {Name: "L3", UUID: 2, Remote: "A"}, {Name: "L4", UUID: 3, Remote: "B"}, {Name: "L5", UUID: 1, Remote: "B"}}
+	if !run.Quick() {
+		links = append(links, tch.LinkSpec{Name: "L6", UUID: 3, Remote: "B"})
+	}
 	lookups := []tch.LookupSpec{{Src: "", Dst: "A"}, {Src: "self", Dst: "B"}, {Src: "self", Dst: "A"}}
 	type scen struct {
 		name   string
@@ -68,7 +73,7 @@ func TestC06(t *testing.T) {
 		// plus three standing EstablishLinkWithPeer observers
 		{"explicit-events/standing-lookups", &tch.Config{Links: links, Lookups: lookups, StaticLookups: true, DupEstablish: true}, 7, 12},
 		// observers added / removed by events (initial value sets of late observers)
-		{"explicit-events/toggled-lookups", &tch.Config{Links: links[:3], Lookups: lookups[:2]}, 6, 9},
+		{"explicit-events/toggled-lookups", &tch.Config{Links: links[:4], Lookups: lookups[:2]}, 6, 9},
 		// the fake link honours link.Link's contract: Close => one HandleLinkLost report
 		{"link-reports-loss-on-close/standing-lookups", &tch.Config{Links: links, Lookups: lookups[:2], StaticLookups: true, DupEstablish: true, Contract: true}, 7, 12},
 		// loss reports also for links never reported established (loss overtakes establish)
